@@ -92,7 +92,7 @@ def sessOp (w? : Option World) : List String → Option (Option World × String)
     | _, _ => none
   | "sess.newRequest" :: [] => w?.map fun w =>
       let w' := w.step .newRequest
-      (some w', s!"{showMsg (w.rdr.newRequest).2} {lastIv w w'} {summary w'}")
+      (some w', s!"{match (w.rdr.newRequest).2 with | some m => showMsg m | none => "none"} {lastIv w w'} {summary w'}")
   | ["sess.handleRequest", m] => do
       let w ← w?; let m ← parseMsg m
       let w' := w.step (.handleRequest m)
